@@ -163,9 +163,12 @@ def run_pairs(ctx, tag, pairs, shard=40, search=True, timeout=900,
     for p in pairs:
         if p.ok is False and search and p.diff is None:
             try:
-                p.diff = numeric.find_difference(
-                    p.p1, p.p2, p.tg, ctx.rng, special=p.special)
-            except Exception as ex:  # evaluator outside its domain
+                # the brute-force search is bounded in time as well: a case
+                # without a difference found is reported as such
+                with time_limit(300):
+                    p.diff = numeric.find_difference(
+                        p.p1, p.p2, p.tg, ctx.rng, special=p.special)
+            except Exception as ex:  # evaluator outside its domain / limit
                 p.err = (p.err or "") + f" numeric search failed: {ex!r}"
     return pairs
 
